@@ -595,4 +595,20 @@ MUTANTS = [
       {"C10": "interior-mutability"}),
     M("c11-project-shallow-walk", ["C11"], "src/operator/project.rs",
       "v.project(|x| state.smap_ref().walk_star(x));", "v.project(|x| state.smap_ref().walk(x).clone());", {"C11": "what-is-projected"}),
+    M("c09-eager-construction", ["C09"], "src/query.rs",
+      "        let stream = solver.start(&goal, initial_state);\n        ResultIterator {",
+      "        let mut stream = solver.start(&goal, initial_state);\n        let _ = solver.peek(&mut stream);\n        ResultIterator {",
+      {"C09": "starts-once"}),
+    M("c09-clock-in-solver", ["C09"], "src/solver.rs",
+      "    pub fn next(&mut self, stream: &mut Stream<U, E>) -> Option<Box<State<U, E>>> {\n        loop {",
+      "    pub fn next(&mut self, stream: &mut Stream<U, E>) -> Option<Box<State<U, E>>> {\n        if std::time::Instant::now().elapsed().as_secs() > 3600 { return None; }\n        loop {",
+      {"C09": "calls=std::time"}),
+    M("c09-next-steps-twice", ["C09"], "src/solver.rs",
+      "                Stream::Cons(state, lazy_stream) => {\n                    *stream = Stream::Lazy(lazy_stream);",
+      "                Stream::Cons(state, lazy_stream) => {\n                    *stream = self.engine.step(self, *lazy_stream.0);",
+      {"C09": "one-step-per-iteration"}),
+    M("c09-none-not-absorbing", ["C09"], "src/solver.rs",
+      "                Stream::Unit(state) => {\n                    #[cfg(feature = \"debugger\")]\n                    if self.debug_enabled {\n                        self.debugger.new_solution(stream, &state);\n                    }\n                    return Some(state);",
+      "                Stream::Unit(state) => {\n                    if false { return Some(state); }\n                    *stream = Stream::Unit(state);\n                    return None;",
+      {"C09": "none-leaves-empty"}),
 ]
